@@ -784,6 +784,7 @@ func alphabet(t *Target) []*rop {
 		switch f.Shape {
 		case vschema.Repeated:
 			add(&rop{name: "mut", j: j})
+			add(&rop{name: "mutset", j: j})
 			add(&rop{name: "set", j: j, val: vval.VList(true, []*vval.Val{fixedElem(f)})})
 			add(&rop{name: "set", j: j, val: vval.VList(true, nil)})
 			add(&rop{name: "lapp", j: j, val: fixedElem(f)})
@@ -796,6 +797,7 @@ func alphabet(t *Target) []*rop {
 			}
 		case vschema.Map:
 			add(&rop{name: "mut", j: j})
+			add(&rop{name: "mutset", j: j})
 			add(&rop{name: "set", j: j, val: vval.VMap(true, []*vval.Val{vval.VEntry(fixedKey(f.Key), fixedElem(f))})})
 			add(&rop{name: "mset", j: j, key: fixedKey(f.Key), val: fixedElem(f)})
 			add(&rop{name: "mclr", j: j, key: fixedKey(f.Key)})
